@@ -29,7 +29,12 @@ def run_tool(backend, entry, outdir, config=(), config_file=None, cwd=None, time
         cmd += ["--config", c]
     cmd += list(extra_args)
     env = dict(ENV, RUST_BACKTRACE="1" if backtrace else "0", NO_COLOR="1")
-    return sh(cmd, cwd=cwd or outdir, timeout=timeout, env=env)
+    try:
+        return sh(cmd, cwd=cwd or outdir, timeout=timeout, env=env)
+    except subprocess.TimeoutExpired as e:
+        # the tool did not terminate: reported like a crash (the output so far is kept)
+        err = e.stderr.decode("utf-8", "replace") if isinstance(e.stderr, bytes) else (e.stderr or "")
+        return subprocess.CompletedProcess(cmd, -9, "", err + f"\nfatal runtime error: no termination within {timeout} s, killed")
 
 
 def panic_before_lowering(backend, entry, outdir, **kw):
@@ -45,6 +50,8 @@ def classify_tool(p):
         return "ok"
     if "panicked at" in p.stderr:
         return "panic"
+    if p.returncode < 0 or "fatal runtime error" in p.stderr or "has overflowed its stack" in p.stderr:
+        return "panic"          # killed by a signal: stack overflow, abort, or our own kill after a hang
     if "Lowering error in" in p.stderr:
         return "lowering-error"
     if "Found errors whilst generating" in p.stderr:
@@ -57,6 +64,8 @@ def panic_site(stderr):
     import re
     m = re.search(r"panicked at ([^\s:]+):(\d+):\d+:\n([^\n]*)", stderr)
     if not m:
+        if "has overflowed its stack" in stderr: return "runtime", "stack-overflow"
+        if "no termination within" in stderr: return "runtime", "no-termination"
         return "?", "?"
     msg = re.sub(r'"[^"]*"|`[^`]*`|\'[^\']*\'|\d+', "", m.group(3))
     slug = re.sub(r"[^A-Za-z]+", "-", msg).strip("-")[:48]
